@@ -1,9 +1,32 @@
 package main
 
 func init() {
-	for _, id := range []string{"C04", "C05", "C07", "C11"} {
+	for _, id := range []string{"C04", "C05", "C11"} {
 		extractors[id] = extractGoChannel
 	}
+	extractors["C07"] = extractC07
+}
+
+// C07 additionally takes the subscriber decorator's Subscribe (with its pump goroutine) and Close as the atomic steps
+// of M_dec (lean/WmModel/GcDec.lean).
+func extractC07(c *ctx) (Facts, error) {
+	f, firstErr := extractGoChannel(c)
+	if f == nil {
+		f = Facts{}
+	}
+	for _, x := range []struct{ key, name string }{
+		{"decorator_subscribe", "Subscribe"},
+		{"decorator_close", "Close"},
+	} {
+		fd, err := c.fn("message/decorator.go", "messageTransformSubscriberDecorator", x.name)
+		if err != nil {
+			firstErr = err
+			f[x.key] = []string{"<missing>"}
+			continue
+		}
+		f[x.key] = c.skeleton(fd)
+	}
+	return f, firstErr
 }
 
 // Structural facts the GoChannel models (lean/WmModel/GcSub.lean, GcTopic.lean) take as atomicity and ordering
